@@ -256,6 +256,19 @@ X_BitBack(e) ==
 \* ---- C06 ------------------------------------------------------------------
 X_Line(e) == Ok(e) /\ LineAccept(e.r, e.a.moves, e.a.end)
 
+\* ---- C14 ------------------------------------------------------------------
+X_Corridor(e) == Ok(e) /\ CorridorAccept(e.r.rm, e.r.rs, e.a.L, e.a.fitH, e.a.fitV, e.a.zeroRadius, e.a.far, e.a.mod)
+\* negative radius, invalid zoom, nil point: an error and no result
+X_CorridorInvalid(e) == Err(e) /\ e.r = 0
+
+\* ---- C16 ------------------------------------------------------------------
+\* r = the results of the same call: twice unchanged, on a permuted and on a
+\* duplicated argument list, and under every imposed map-iteration order
+X_Determ(e) ==
+  /\ Ok(e) /\ e.a.kept                                          \* caller's slices untouched
+  /\ \A i \in 1..Len(e.r) : SetOfSeq(e.r[i]) = SetOfSeq(e.r[1])  \* same set every time
+  /\ (e.a.dedup => \A i \in 1..Len(e.r) : DupFree(e.r[i]))      \* no ID twice
+
 \* ---- dispatch -------------------------------------------------------------
 Explains(e) ==
   /\ e.bad = ""
@@ -296,6 +309,9 @@ Explains(e) ==
       [] e.op = "BitFwd"               -> X_BitFwd(e)
       [] e.op = "BitBack"              -> X_BitBack(e)
       [] e.op \in {"Line", "LineSp"}   -> X_Line(e)
+      [] e.op = "Corridor"             -> X_Corridor(e)
+      [] e.op = "CorridorInvalid"      -> X_CorridorInvalid(e)
+      [] e.op = "Determ"               -> X_Determ(e)
       [] OTHER -> FALSE
 
 \* what the specification expected (diagnostics for a rejected line)
@@ -339,6 +355,14 @@ Expected(e) ==
     [] e.op \in {"Line", "LineSp"}   -> [walkEnd |-> WalkEnd(e.a.moves),
                                          notTouched |-> Range(e.r) \ Touched(e.a.moves),
                                          reachable |-> Cardinality(Reachable(Range(e.r), <<0, 0, 0>>))]
+    [] e.op = "Corridor"             -> [measuredNotInSkipped |-> Range(e.r.rm) \ Range(e.r.rs),
+                                         lineMissing |-> Range(e.a.L) \ Range(e.r.rm),
+                                         outsideBox |-> {p \in Range(e.r.rs) \ Range(e.a.L) :
+                                                          ~WithinLayers(p, Range(e.a.L), e.a.fitH, e.a.fitV, e.a.mod)},
+                                         far |-> e.a.far]
+    [] e.op = "CorridorInvalid"      -> "error"
+    [] e.op = "Determ"               -> [differing |-> {e.a.labels[i] : i \in {j \in 1..Len(e.r) : SetOfSeq(e.r[j]) # SetOfSeq(e.r[1])}},
+                                         duplicates |-> {e.a.labels[i] : i \in {j \in 1..Len(e.r) : ~DupFree(e.r[j])}}]
     [] OTHER -> "no-spec-operator"
 
 \* ---- recorded deviations (known findings) -----------------------------------
